@@ -22,7 +22,7 @@ class SideModel:
     def feed(self, d, ptype, n):
         if d == "tx":
             if ptype == KEXINIT:
-                if not self.need and not self.kexinit_rcvd and not self.kexinit_sent:
+                if not self.need and not self.kexinit_rcvd and not self.kexinit_sent and self.exchanges > 0:
                     self.problems.append(("rekey-started-below-threshold",
                                           {"out": (self.out_p, self.out_b), "in": (self.in_p, self.in_b)}))
                 self.kexinit_sent = True
@@ -50,7 +50,7 @@ class SideModel:
             self.newkeys_sent = self.newkeys_rcvd = False
             self.over_p = self.over_b = 0
             self.exchanges += 1
-        if not self.need and (self.out_p >= self.mp or self.out_b >= self.mb
+        if not self.need and self.exchanges > 0 and (self.out_p >= self.mp or self.out_b >= self.mb
                               or self.in_p >= self.mp or self.in_b >= self.mb):
             self.need = True
 
